@@ -545,7 +545,13 @@ pub fn run(seed: u64, n: usize, out: &mut dyn Write) {
                         rsents.push(String::new());
                     }
                 }
-                let sents = rsents;
+                // now and then no sentence at all, or blank lines only: every count is 0, the probabilities are 0/0 = NaN,
+                // and the files must still be a mapping that `map` accepts (C13: ALWAYS a valid mapping)
+                let sents = match rng.below(7) {
+                    0 => vec![],
+                    1 => vec![String::new(); 1 + rng.below(3)],
+                    _ => rsents,
+                };
                 let input: Vec<u8> = sents.iter().flat_map(|x| x.bytes().chain(std::iter::once(b'\n'))).collect();
                 let (st_r, _) = run_bin(&env, "reorder", &["-i".into(), p(&env, "sys.dic.zst"), "-o".into(), p(&env, "reordered")], Some(&input));
                 let lib = guarded(|| -> Result<(Vec<u8>, Vec<u8>, Vec<u16>, Vec<u16>), ()> {
